@@ -97,25 +97,31 @@ def fallback_rules(rep, prog):
         if not (rt[0] == "call" and last_seg(rt[1]) == "from_bits"):
             raise common.Infra("C20.F2: fallback::abs is no longer a bit operation (%s); rule needs re-confirmation" % T.show(rt)[:120])
         rep.violate("C20.F2", "F2|fallback-abs", ab.where(), "the built-in abs does not clear exactly the sign bit of its argument (%s)" % T.show(rt)[:160], config=cfg)
-    # ---- F3
+    # ---- F3: interpreted once per sign of x, with `x % m` an opaque remainder R — however the sign is turned into the shift
+    # (a cast of the flag, a match, an if)
+    from . import symalg as S, absint as A
     rb = prog.body(FL + "fallback::rem_euclid")
-    rt = ret_term(rb)
-    atoms = [(lambda t: t[0] == "bin" and t[1] == "Rem" and T.strip(t[2], refs=True) == ("param", 1) and T.strip(t[3], refs=True) == ("param", 2), "R"),
-             (lambda t: t[0] == "call" and last_seg(t[1]) == "is_sign_negative" and T.strip(t[2][0], refs=True) == ("param", 1), "NEG"),
-             (lambda t: t == ("param", 2), "M"), (lambda t: t == ("param", 1), "X")]
-    got = P.poly(T.strip(rt, sites=True, refs=True, casts=True), atoms)
-    want = {("R",): 1, ("M", "NEG"): 1}
+    got = {}
+    for neg in (False, True):
+        it = S.interp(prog, models={"f32>::is_sign_negative": lambda _it, _a, _c, _d, neg=neg: int(neg),
+                                    "f32>::is_sign_positive": lambda _it, _a, _c, _d, neg=neg: int(not neg)},
+                      oracle=lambda op, a_, b_, neg=neg: _sign_oracle(op, a_, b_, neg))
+        try:
+            v = A.deref_all(it, it.call_body(rb, [S.sym("X"), S.sym("M")]))
+            got[neg] = S.to_poly(v)
+        except (A.Undecided, A.Panic, S.NotPolynomial) as e:
+            raise common.Infra("C20.F3: fallback::rem_euclid has a form the rule cannot interpret (%s)" % e)
+    R = "?%r" % (("symop", "Rem", S.sym("X"), S.sym("M")),)
+    want = {False: {(R,): Fraction(1)}, True: {(R,): Fraction(1), ("M",): Fraction(1)}}
     ok = got == want
-    rep.inst("C20.F3", "fallback::rem_euclid(x, m) = (x %% m) + [x negative]*m: %s  [%s]; hence in [0, m] and congruent to x for m > 0 "
-                       "(x >= 0: r in [0, m), j = 0; x < 0 or -0.0: r in (-m, -0.0], j = 1)" % (ok, got), config=cfg)
+    rep.inst("C20.F3", "fallback::rem_euclid(x, m) = (x %% m) + [x negative]*m: %s  [x >= 0: %s; x < 0: %s]; hence in [0, m] and congruent to x for m > 0 "
+                       "(x >= 0: r in [0, m), j = 0; x < 0 or -0.0: r in (-m, -0.0], j = 1)" % (ok, _show_poly(got[False]), _show_poly(got[True])), config=cfg)
     if not ok:
-        opaque = [m for m in got if any(str(x).startswith("?") for x in m)]
-        if opaque:
-            raise common.Infra("C20.F3: fallback::rem_euclid has a form the rule cannot classify (%s)" % opaque[:1])
         rep.violate("C20.F3", "F3|fallback-rem", rb.where(),
-                    "the built-in rem_euclid is not (x %% m) + [x negative]*m (got %s): the result leaves [0, m] or is not congruent to x" % got, config=cfg)
+                    "the built-in rem_euclid is not (x %% m) + [x negative]*m (x >= 0: %s; x < 0: %s): the result leaves [0, m] or is not congruent to x"
+                    % (_show_poly(got[False]), _show_poly(got[True])), config=cfg)
     # ---- F4 (fallback recip_sqrt)
-    newton_recip(rep, prog, FL + "fallback::recip_sqrt", lambda t: t[0] == "call" and last_seg(t[1]) == "from_bits")
+    newton_recip(rep, prog, FL + "fallback::recip_sqrt", ("f32>::from_bits",))
 
 
 def pixel_rounding_rule(rep, prog):
@@ -163,20 +169,41 @@ def _mark_param(t):
     return tuple(_mark_param(x) if isinstance(x, tuple) else x for x in t)
 
 
-def newton_recip(rep, prog, path, is_estimate):
+def _sign_oracle(op, a, b, neg):
+    """comparisons of the symbolic argument X with zero, in the scenario `x negative` / `x non-negative`"""
+    z = (0, ("f", 0.0), ("f", -0.0))
+    for x, y, flip in ((a, b, False), (b, a, True)):
+        if x == ("sym", "X") and y in z:
+            res = {"Lt": neg, "Ge": not neg, "Le": None if not neg else True, "Gt": None if not neg else False, "Eq": None if not neg else False, "Ne": None if not neg else True}
+            if flip:
+                res = {"Gt": res["Lt"], "Le": res["Ge"], "Ge": res["Le"], "Lt": res["Gt"], "Eq": res["Eq"], "Ne": res["Ne"]}
+            return res.get(op)
+    return None
+
+
+def _show_poly(p):
+    return " + ".join("%s*%s" % (c, ".".join(x[:40] for x in m) or "1") for m, c in sorted(p.items())) or "0"
+
+
+def newton_recip(rep, prog, path, estimate_models):
+    """recip_sqrt = y(3 - x y^2)/2 on the estimate y: the function (and whatever helper holds the Newton step) is interpreted with the
+    estimate an opaque symbol Y; the result must be that polynomial."""
+    from . import symalg as S, absint as A
     cfg = prog.config
     b = prog.body(path)
-    rt = T.strip(ret_term(b), sites=True, refs=True, casts=True)
-    atoms = [(is_estimate, "Y"), (lambda t: t == ("param", 1), "X")]
-    got = P.poly(rt, atoms)
+    it = S.interp(prog, models={k: (lambda _it, _a, _c, _d: S.sym("Y")) for k in estimate_models})
+    try:
+        got = S.to_poly(A.deref_all(it, it.call_body(b, [S.sym("X")])))
+    except (A.Undecided, A.Panic, S.NotPolynomial) as e:
+        raise common.Infra("C20.F4: %s has a form the rule cannot interpret (%s)" % (path, e))
     want = {("Y",): Fraction(3, 2), ("X", "Y", "Y", "Y"): Fraction(-1, 2)}
-    ok = {k: Fraction(v) for k, v in got.items()} == want
+    ok = got == want
     rep.inst("C20.F4", "%s = y(3 - x y^2)/2 (one Newton step for 1/sqrt x on the estimate y): %s" % (path.replace(FL, ""), ok), config=cfg)
     if not ok:
-        if any(str(x).startswith("?") for m in got for x in m):
-            raise common.Infra("C20.F4: %s has a form the rule cannot classify (%s)" % (path, got))
+        if any(str(x).startswith("?") for m in got for x in m) or not any("Y" in m for m in got):
+            raise common.Infra("C20.F4: %s has a form the rule cannot classify (%s)" % (path, _show_poly(got)))
         rep.violate("C20.F4", "F4|%s" % path.replace(FL, ""), b.where(),
-                    "%s is not Newton's iteration y(3 - x y^2)/2 for the reciprocal square root (got %s)" % (path.replace(FL, ""), got), config=cfg)
+                    "%s is not Newton's iteration y(3 - x y^2)/2 for the reciprocal square root (got %s)" % (path.replace(FL, ""), _show_poly(got)), config=cfg)
 
 
 def mm_rules(rep, prog):
@@ -214,7 +241,7 @@ def mm_rules(rep, prog):
         if any(str(x).startswith("?") for m in got for x in m):
             raise common.Infra("C20.F4: mm::sqrt has a form the rule cannot classify (%s)" % (got,))
         rep.violate("C20.F4", "F4|mm::sqrt", b.where(), "mm::sqrt is not Newton's iteration (y + x/y)/2 on micromath's square root (2y*result = %s)" % got, config=cfg)
-    newton_recip(rep, prog, FL + "mm::recip_sqrt", lambda t: t[0] == "call" and last_seg(t[1]) == "invsqrt" and "micromath" in t[1])
+    newton_recip(rep, prog, FL + "mm::recip_sqrt", ("F32Ext::invsqrt", "F32::invsqrt", "::invsqrt"))
 
 
 def _sub_atom(t, pred):
